@@ -11,7 +11,7 @@ import hostile as H
 PROP = "C01"
 LEVEL = "exploration"
 RULE = ("hostile-grammar histories (frames for every identifier the node listens to, all SDO command bytes, mutated "
-        "multi-frame SDO dialogues, ticks, API calls, driver faults) on generated dictionaries and builds, plus an enumerated "
+        "multi-frame SDO dialogues, ticks, API calls, driver faults) on generated dictionaries and builds, plus enumerated block downloads around the transfer-buffer boundary (sizes 875..896 / 1771..1779 x announced size x extra segments x last flag x end n) and an enumerated "
         "SDO server-state x command-byte x payload sweep; a history counts as non-trivial if it executed >= 20 steps and "
         "produced >= 1 transmitted frame or callback; distinct = different command script")
 ASSUMPTIONS = [
@@ -132,6 +132,9 @@ def plan(tier, seed):
     if tier == "thorough":
         for i in range(12):
             items.append(("fuzz-valgrind", "plain", 100000 + i, 6))
+    # enumerated buffer-boundary block downloads (complete in both tiers)
+    for lo in range(0, 18, 3):
+        items.append(("boundary", "asan", lo, 3))
     # enumerated state x command sweep (complete in both tiers)
     for st in SWEEP_STATES:
         for c0 in range(0, 256, 32):
@@ -166,6 +169,44 @@ def work(item, ctx):
             if h == 0 and idx < 2:
                 res.sample({"build": variant, "node": cfg.nodeid, "freq": cfg.freq, "tmrnum": cfg.tmrnum,
                             "objects": len(cfg.objs), "dropped": list(drop), "script_head": lines[:12]})
+    elif kind == "boundary":
+        # block downloads whose buffered data ends exactly at / around the transfer buffer size (127 segments = 889 bytes):
+        # last segment flagged or not, 0/1/2/127 more in-order data segments behind it, end frame with n in {0, 6, 7}
+        _, variant, lo, n = item
+        exe = ctx["exes"][variant]
+        rng = random.Random(F.seed_for(seed, "C01boundary", lo))
+        cfg = H.full_config(random.Random(7), 1, nodeid=1, tmrnum=16, freq=1000)
+        sizes = [882, 883, 884, 888, 889, 890, 895, 896, 1771, 1772, 1777, 1778, 1779, 6, 7, 8, 14, 875]
+        rid = 0x601
+        f = lambda b: "rx %x 8 %s" % (rid, (bytes(b) + bytes(8))[:8].hex())
+        for size in sizes[lo:lo + n]:
+            for announce in (size, 0, 4000):
+                lines = []
+                for extra in (0, 1, 2, 127):
+                    for flag_last in (True, False):
+                        for endn in (0, 6, 7):
+                            lines += ["restart", "start", f(bytes([0xC6 if announce else 0xC4, 0x20, 0x20, 9]) + announce.to_bytes(4, "little"))]
+                            nseg = (size + 6) // 7
+                            seq = 0
+                            for i in range(nseg):
+                                seq += 1
+                                last = i == nseg - 1
+                                lines.append(f(bytes([seq | (0x80 if (last and flag_last) else 0)]) + bytes((i + k) & 0xFF for k in range(7))))
+                                if seq == 127:
+                                    seq = 0
+                            for k in range(extra):
+                                seq += 1
+                                lines.append(f(bytes([seq]) + bytes([0xEE] * 7)))
+                                if seq == 127:
+                                    seq = 0
+                            lines.append(f(bytes([0xC1 | (endn << 2)]) + bytes(7)))
+                            lines += [f(bytes([0x40, 0x20, 0x20, 9, 0, 0, 0, 0])), f(bytes([0x60] + [0] * 7)), "tick 2"]
+                            res.counters["boundary_cases"] += 1
+                res.evals += 1
+                run_history(res, exe, cfg, lines, ("boundary", size, announce), count=False)
+                res.nt("boundary", size, announce)
+        if lo == 0:
+            res.sample({"boundary": "block download of %d bytes announced as %d, last segment flagged / not, 0/1/2/127 extra segments, end n in {0,6,7}" % (sizes[0], sizes[0])})
     elif kind == "sweep":
         _, variant, st, c0, n = item
         exe = ctx["exes"][variant]
